@@ -167,6 +167,20 @@ func RunV2(id, tier string, seed int64) int {
 		return fail(2, "INCONCLUSIVE: "+err.Error())
 	}
 	transitions += gen
+	if !persistence {
+		// a second family with larger trees and many removals: double rotations triggered by a removal
+		// need five or more keys in a particular shape
+		big := sim
+		big.K, big.D, big.Num = 12, 48, tierNum(tier, 4, 60)
+		big.Classes = []string{"setnew", "setnew", "setnew", "setnew", "set", "rm", "rm", "rm", "rm", "save", "save"}
+		bb, bg, err := GenerateBehaviours(big, seed+31)
+		if err != nil {
+			return fail(2, "INCONCLUSIVE: "+err.Error())
+		}
+		transitions += bg
+		behs = append(behs, bb...)
+		sim.K = big.K // palettes must cover the larger key set
+	}
 	rng := rand.New(rand.NewSource(seed))
 	var jobs []*v2Job
 	combos := 0
